@@ -122,3 +122,160 @@ def snapshot(G):
 
 def same_snapshot(a, b):
     return a[0] == b[0] and a[1] == b[1]
+
+
+# --------------------------------------------------------------------------------------------
+# clean motif network builder (input generation only; harness code, not code under test)
+# --------------------------------------------------------------------------------------------
+
+def _shape_edges(shape, vs):
+    from .gen import shape_edges
+    return shape_edges(shape, vs)
+
+
+def build_clean_network(rng, N, families, class_jds, class_weights=None, assort=0.0, ids="shuffled", graph_cls=nx.Graph,
+                        max_repair=200000):
+    """families: [(name, shape, size)] one per topology (a custom two-name motif is given as
+    (names-per-edge list, shape, size)).  class_jds: list of joint-degree tuples (one entry per topology,
+    in units of motif memberships); every vertex is assigned one class.  Motifs are formed by stub
+    grouping, with a fraction `assort` of every class's stubs grouped inside the class, then repaired
+    by swapping single stubs until every motif has distinct vertices and no vertex pair is used twice.
+    ids: 'shuffled' or 'sorted' (vertex ids ordered by class).  Returns (G, info)."""
+    from gcmpy import NetworkNames as NN
+    T = len(families)
+    k = len(class_jds)
+    w = class_weights or [1.0] * k
+    cls = rng.choices(range(k), weights=w, k=N)
+    if ids == "sorted":
+        cls.sort()
+    else:
+        rng.shuffle(cls)
+    want = [list(class_jds[c]) for c in cls]
+    motifs = []      # (topology index, [vertices])
+    for t, (name, shape, size) in enumerate(families):
+        stubs = [v for v in range(N) for _ in range(want[v][t])]
+        rng.shuffle(stubs)
+        if assort > 0:
+            inside, outside = [], []
+            for v in stubs:
+                (inside if rng.random() < assort else outside).append(v)
+            inside.sort(key=lambda v: (cls[v], rng.random()))
+            stubs = inside + outside
+        stubs = stubs[: len(stubs) - len(stubs) % size]
+        for i in range(0, len(stubs), size):
+            motifs.append([t, stubs[i:i + size]])
+    # conflict bookkeeping
+    pair_use = {}
+
+    def edges_of(m):
+        t, vs = m
+        return [tuple(sorted(e)) for e in _shape_edges(families[t][1], vs)]
+
+    def all_pairs(m):
+        vs = m[1]
+        return [tuple(sorted((a, b))) for i, a in enumerate(vs) for b in vs[i + 1:]]
+
+    def conflicts(m):
+        vs = m[1]
+        c = len(vs) - len(set(vs))
+        for p in edges_of(m):
+            if p[0] == p[1] or pair_use.get(p, 0) > 1:
+                c += 1
+        return c
+
+    def add(m, sign):
+        for p in edges_of(m):
+            pair_use[p] = pair_use.get(p, 0) + sign
+            if pair_use[p] == 0:
+                del pair_use[p]
+
+    for m in motifs:
+        add(m, 1)
+    bad = [i for i, m in enumerate(motifs) if conflicts(m)]
+    by_top = {}
+    for i, m in enumerate(motifs):
+        by_top.setdefault(m[0], []).append(i)
+    steps = 0
+    max_repair = min(max_repair, 3000 + 60 * len(motifs))
+    while bad and steps < max_repair:
+        steps += 1
+        i = rng.choice(bad)
+        m = motifs[i]
+        if not conflicts(m):
+            bad.remove(i)
+            continue
+        j = rng.choice(by_top[m[0]])
+        if j == i:
+            continue
+        o = motifs[j]
+        a, b = rng.randrange(len(m[1])), rng.randrange(len(o[1]))
+        if assort > 0 and cls[m[1][a]] != cls[o[1][b]] and rng.random() < 0.9:
+            continue
+        before = conflicts(m) + conflicts(o)
+        add(m, -1); add(o, -1)
+        m[1][a], o[1][b] = o[1][b], m[1][a]
+        add(m, 1); add(o, 1)
+        after = conflicts(m) + conflicts(o)
+        if after > before:
+            add(m, -1); add(o, -1)
+            m[1][a], o[1][b] = o[1][b], m[1][a]
+            add(m, 1); add(o, 1)
+        else:
+            if conflicts(o) and j not in bad:
+                bad.append(j)
+            if not conflicts(m):
+                bad.remove(i)
+    dropped = 0
+    # drop whatever could not be repaired (annotation below is recomputed from what is kept)
+    keep = []
+    for idx in sorted(range(len(motifs)), key=lambda q: conflicts(motifs[q])):
+        m = motifs[idx]
+        if conflicts(m):
+            add(m, -1)
+            dropped += 1
+        else:
+            keep.append(m)
+    # a dropped motif may have un-conflicted another one only in the favourable direction; re-verify
+    used = set()
+    final = []
+    for m in keep:
+        es = edges_of(m)
+        if len(set(m[1])) != len(m[1]) or any(p in used or p[0] == p[1] for p in es) or len(set(es)) != len(es):
+            dropped += 1
+            continue
+        used.update(es)
+        final.append(m)
+    G = graph_cls()
+    q = getattr(G, "_quiet", None)
+    if q is not None:
+        G._quiet = True
+    G.add_nodes_from(range(N))
+    deg = [[0] * T for _ in range(N)]
+    for mid, (t, vs) in enumerate(final):
+        name = families[t][0]
+        es = _shape_edges(families[t][1], vs)
+        for n_e, (a, b) in enumerate(es):
+            G.add_edge(a, b)
+            G.edges[a, b][NN.TOPOLOGY] = name[n_e] if isinstance(name, (list, tuple)) else name
+            G.edges[a, b][NN.MOTIF_IDS] = mid
+        for v in vs:
+            deg[v][t] += 1
+    for v in range(N):
+        G.nodes[v][NN.JOINT_DEGREE] = tuple(deg[v])
+    if q is not None:
+        G._quiet = False
+        G.events = []
+    info = {"motifs": len(final), "dropped": dropped, "repair_steps": steps, "classes": cls,
+            "off_class_vertices": sum(1 for v in range(N) if tuple(deg[v]) != tuple(class_jds[cls[v]]))}
+    return G, info
+
+
+def check_clean(G):
+    """independent re-check that a builder output is a clean motif network (harness self-check)."""
+    from gcmpy import NetworkNames as NN
+    by = {}
+    for u, v, d in G.edges(data=True):
+        if u == v:
+            return "self-loop"
+        by.setdefault(d[NN.MOTIF_IDS], []).append((u, v))
+    return None
